@@ -39,7 +39,9 @@ def r051(ctx):
     br = [e for e in r.events if e.kind == "branch" and len(e.loops) == 2 and e.func == fq and isinstance(e.node, ast.If)]
     ctx.floor("R05.1", "drop tests in the hull loop", len(br), 1)
     e = br[0]
-    sel = A.at(e, "selected")
+    pops_ = [x for x in r.events if x.kind == "call" and x.data["fterm"].op == "attr" and x.data["fterm"].args[1] == "pop" and len(x.loops) == 2]
+    ctx.require(pops_, "anchor vanished: hull pop")
+    sel = pops_[0].data["fterm"].args[0]
     b = {"r1": mk("sub", sel, const(-1)), "r0": mk("sub", sel, const(-2)), "r2": r2}
     want = A.spec("(r1.y - r0.y) * (r2.x - r0.x) <= (r2.y - r0.y) * (r1.x - r0.x)", b)
     okc = A.C.canon(e.data["cond"]) is A.C.canon(want)
@@ -54,7 +56,7 @@ def r051(ctx):
     ctx.ob("R05.1", fq, pops[0].node if pops else None, ok, "a true test pops r1, a false test ends the inner loop",
            construct="hull pop/break")
     wc = inner.data["iter"]
-    ok = A.C.canon(wc) is A.C.canon(A.at(inner, "len(selected) >= 2"))
+    ok = A.C.canon(wc) is A.C.canon(A.spec("len(S) >= 2", {"S": sel, "len": glob("builtins.len")}))
     ctx.ob("R05.1", fq, inner.node, ok, "drops are attempted while at least two points are selected", construct="hull loop guard")
     apps = [x for x in r.events if x.kind == "call" and x.data["fterm"].op == "attr" and x.data["fterm"].args[1] == "append" and len(x.loops) == 1]
     ok = len(apps) == 1 and arg(apps[0], 0) is r2 and apps[0].seq > e.seq and len(apps[0].pc) == 1
@@ -122,7 +124,7 @@ def _eo(ctx, d):
     ctx.ob("R05.2", fq, e.node, not bad and set(k) == set(want), "overall counts: fp = N- x, tn = N- (1-x), tp = N+ y_min, fn = "
            "N+ (1-y_min) with N+ = number of positive labels, N- = n - N+" if not bad else f"count roles differ for {bad}",
            construct="eo: count roles")
-    obj = A.at(ib, "objective_values")
+    obj = ib.data["value"].args[0].args[0]
     co = A.C.canon(obj)
     md = A.ev.eval_src("METRIC_DICT", {}, module=M_TC)
     call = A.spec("M[o](c)", {"M": md, "o": A.at(ib, "self.objective"), "c": e.data["result"]})
